@@ -129,7 +129,10 @@ ItemNumerals(it) == UNION { NumeralsOf(it[k]) : k \in DOMAIN it }
 NumMarks(e) ==
   LET ns == ItemNumerals(e.item) \cup ItemNumerals(e.values)
       arith == e.op \in {"Apply", "ApplyText"}
-  IN (IF \E n \in ns : Len(DNorm(n).d) > 15 THEN { <<"number", "more-than-15-digits">> } ELSE {})
+      \* ... or an exact sum / difference of two of them that a float64 cannot carry (1e19 + 1)
+      long(n) == Len(DNorm(n).d) > 15
+  IN (IF (\E n \in ns : long(n)) \/ (arith /\ \E x, y \in ns : long(DAdd(x, y)) \/ long(DSub(x, y)))
+      THEN { <<"number", "more-than-15-digits">> } ELSE {})
      \cup (IF arith /\ \E n \in ns : DNorm(n).e < 0 THEN { <<"number", "fraction-in-update">> } ELSE {})
 LabSig1(e) == IF e.op \in {"MatchText", "ApplyText"} THEN TextSig(e) ELSE
              IF e.op = "Match" THEN CondSig(e.ast, e.item, e.names, e.values) \cup (IF ItemHasEmpty(e.item) THEN { <<"empty-container">> } ELSE {})
